@@ -152,6 +152,28 @@ def run(ctx, ck):
     import re
     from ..symx import SymExec, copy_replace
     from ..poly import poly_roles, cancel, reduce_trig, Poly
+    # the number of segments is the requested count, never the outcome of a floating-point range
+    ck.rule('R-GRID.count-based', 'segment end points are generated from an integer counter, never from a float-stepped range')
+    from .C16 import judge_range_call, grid_calls
+    n_rng = 0
+    stop_ = False
+    for q_ in ('mininec.Arc.__init__', 'mininec.Helix.__init__', 'mininec.Wire.compute_equal_segments',
+               'mininec.Curve.compute_segments', 'taper.taper1', 'taper.taper2'):
+        g_ = m.funcs.get(q_)
+        if g_ is None:
+            continue
+        fl_ = ctx.flow(g_)
+        for c_ in grid_calls(g_):
+            if dotted(c_.func) == 'range':
+                ok_, why_ = True, 'range(): the builtin only takes integers'
+            else:
+                ok_, why_ = judge_range_call(fl_, c_, fl_.node_id_of(c_))
+            ck.ob('R-GRID.count-based', '%s|%s' % (q_, norm(c_)[:50]), ok_, g_.loc(c_), why_)
+            n_rng += 1
+            stop_ = stop_ or not ok_
+    ck.floor('range constructions in the segmentation code', n_rng, 3)
+    if stop_:
+        return      # (the curve rules below would only report that they no longer find their loop)
     ck.rule('R-SIB.closing-point', 'closing end point of a curve = its loop formula at i = n_segments')
     ck.rule('R-POLY.on-curve', 'arc / helix end points satisfy the curve equation; angle is linear in the index')
 
